@@ -171,7 +171,7 @@ func replayAll(r *ev.Run, walks [][]brk.CtlStep, baseSeed int64) (found []ctlFin
 // shows up again (two are enough).
 func confirm(f ctlFinding) int {
 	hits := 0
-	for k := 0; k < 4 && hits < 2; k++ {
+	for k := 0; k < 8 && hits < 2; k++ {
 		res, err := brk.ReplayCtl(f.steps, f.seed, brk.CtlOpts{})
 		if err != nil || res == nil {
 			continue
@@ -207,7 +207,7 @@ func report(r *ev.Run, prop string, found []ctlFinding) {
 			transient(r, "divergence %s/%s: %s", f.div.Prop, f.div.Aspect, f.div.Desc)
 			continue
 		case n == 1:
-			r.Inconclusive("divergence %s/%s reproduced only once in four re-runs: %s", f.div.Prop, f.div.Aspect, f.div.Desc)
+			r.Inconclusive("divergence %s/%s reproduced only once in eight re-runs: %s", f.div.Prop, f.div.Aspect, f.div.Desc)
 			continue
 		}
 		seen[f.div.Aspect] = true
